@@ -5,7 +5,7 @@ TB = "Trusted: go/types + go/ssa (x/tools v0.50.0) and the hand-confirmed rule t
 
 claim("C06",
       "SSA path/event dataflow on handleFlush, its cleanup closure, abortFileWriter, executeMergeGroup and processIngestRequest (ok/fail edges of store calls, non-nil provenance of answered values, mutation-before-validation may-facts)",
-      "Static necessary conditions of truthful acknowledgements on every path: each nil answer is an empty batch, an ack-only flush, or follows Close-ok then Update-ok for the file created on that path; each error answer is provably non-nil; each failure exit after CreateFile passes abort/tombstone; abortFileWriter disposes and tombstones on all paths; marshal/size validation precedes any shared-buffer mutation. Does not decide visibility on a fresh engine.",
+      "Static necessary conditions of truthful acknowledgements on every path: each nil answer is an empty batch, an ack-only flush, or follows Close-ok then Update-ok for the file created on that path; each error answer is provably non-nil; each failure exit after CreateFile passes abort/tombstone; abortFileWriter disposes and tombstones on all paths; marshal/size validation precedes any shared-buffer mutation; no Write/Close error of the file-producing functions is dropped or overwritten before it is checked (R5). Does not decide visibility on a fresh engine.",
       TB)
 
 claim("C07",
@@ -35,7 +35,7 @@ claim("C13",
 
 claim("C14",
       "lock-discipline dataflow (guarded-by table for MemoryMetaStore), pending/kill failure-edge dataflow over the query region with closure summaries, interface-implementation scan of MetaStore.Update",
-      "Schedule-independent necessary conditions of snapshot consistency: MemoryMetaStore.files only under mu, Update one write-locked critical section, snapshot under RLock, no yield with mu possibly held and the iterator yields from one snapshot taken under RLock; every failure edge in the query region (open, row read, filter read/plan, scan, materialise, iterator error) is recorded before return unless the query is cancelled; every shipped MetaStore.Update consumes both operation lists — known finding F1: FileSystemDataStore.Update ignores writes. Interleavings are not enumerated.",
+      "Schedule-independent necessary conditions of snapshot consistency: MemoryMetaStore.files only under mu, Update one write-locked critical section, snapshot under RLock, no yield with mu possibly held and the iterator yields from one snapshot taken under RLock; every failure edge in the query region (open, row read, filter read/plan, scan, materialise, iterator error) is recorded before return unless the query is cancelled; the merge commits through exactly one Update after which alone sources are removed (C13.R2–R4), stored block lists are never rewritten by readers (R5 = C02.R7), recording is lossless (R4 = C20.R8); every shipped MetaStore.Update consumes both operation lists — known finding F1: FileSystemDataStore.Update ignores writes. Interleavings are not enumerated.",
       TB)
 
 claim("C15",
@@ -75,12 +75,12 @@ claim("C01",
 
 claim("C02",
       "SSA path/event dataflow on the scan loop, flush and deliver (counter domain), channel-ownership scans, abstract interpretation of the prefilter evaluator and the compiled matcher on constant and small trees",
-      "Row-level exactness through structure: only rows on the true edge of matchRowBytes reach the batcher, materialised from the same scanned bytes; rowChan has one sender/closer chain; each batch is cleared before hand-off, sent at most once per path and exactly once before a nil return, counted once per send; the matcher's per-row scratch is reset before every walk (R6); the strict prefilter table (nil/empty/unknown/missing-metadata cases, And = all, Or = any) and the compiled matcher's And/Or/constant semantics hold on every small tree and assignment. Multiset equality against an oracle is not decided.",
+      "Row-level exactness through structure: only rows on the true edge of matchRowBytes reach the batcher, materialised from the same scanned bytes; rowChan has one sender/closer chain; each batch is cleared before hand-off, sent at most once per path and exactly once before a nil return, counted once per send; the matcher's per-row scratch is reset before every walk (R6); no query-side code writes into a block-metadata array it did not allocate (R7); the strict prefilter table (nil/empty/unknown/missing-metadata cases, And = all, Or = any) and the compiled matcher's And/Or/constant semantics hold on every small tree and assignment. Multiset equality against an oracle is not decided.",
       TB)
 
 claim("C03",
       "value provenance of the materialisation argument, identifier-use scan for package unsafe, who-may-call scans, typestate (released-buffer) dataflow, defer-order check",
-      "Independence of returned rows (second sentence of the property): rows are materialised from a copying string conversion; package unsafe is confined to unsafeString, called only by indexing and matching, which return only verdicts; no instruction uses a pooled buffer after putScanBuffer on any path (locals kept in memory tracked by cell); the scan's buffer release is deferred before the batch flush's defer and never called directly; the pooled reader is used only by the query scan and filters are decoded by copying; the materialisation region references no package-level reference-typed global (R5). JSON round-trip equality (first sentence) is not decided.",
+      "Independence of returned rows (second sentence of the property): rows are materialised from a copying string conversion; package unsafe is confined to unsafeString, called only by indexing and matching, which return only verdicts; no instruction uses a pooled buffer after putScanBuffer on any path (locals kept in memory tracked by cell); the scan's buffer release is deferred before the batch flush's defer and never called directly; the pooled reader is used only by the query scan and filters are decoded by copying; the materialisation region references no package-level reference-typed global (R5); nothing returned is a view of a buffer whose release is deferred (R6). JSON round-trip equality (first sentence) is not decided.",
       TB)
 
 claim("C04",
@@ -100,7 +100,7 @@ claim("C27",
 
 claim("C20",
       "lock-discipline and path/event dataflow on Next/finish/terminate/Close, channel-operation scan of the query region, ordering dataflow on the teardown goroutine",
-      "The cursor's terminal state through structure: err is written only under mu on the not-yet-finalized edge with finalized set (first finalizer wins); Next returns false only after finish/terminate or the iterDone test, finish marks iteration done and cancels; Close is sync.Once-guarded, cancels before waiting for done and returns nil; terminate reads errors only after the pipeline stopped and wraps the caller's context error with %w; Results' shared fields are accessed under mu; every channel operation in query goroutines is abandonable (Done() case or default; one named exception); teardown runs in the order fileWorkers.Wait → close(blockJobs) → blockWorkers.Wait → closeAll → markWorkersDone; every context waited on, passed on or stored in a slot by the query's goroutines originates from Results.ctx (R7). Interleavings are not enumerated.",
+      "The cursor's terminal state through structure: err is written only under mu on the not-yet-finalized edge with finalized set (first finalizer wins); Next returns false only after finish/terminate or the iterDone test, finish marks iteration done and cancels; Close is sync.Once-guarded, cancels before waiting for done and returns nil; terminate reads errors only after the pipeline stopped and wraps the caller's context error with %w; Results' shared fields are accessed under mu; every channel operation in query goroutines is abandonable (Done() case or default; one named exception); teardown runs in the order fileWorkers.Wait → close(blockJobs) → blockWorkers.Wait → closeAll → markWorkersDone; every context waited on, passed on or stored in a slot by the query's goroutines originates from Results.ctx (R7); recording of failures and block statistics is lossless (R8); only Close/terminate/finish hold the cursor's CancelFunc (R9); Close and terminate return only after having waited for the pipeline (R3). Interleavings are not enumerated.",
       TB)
 
 claim("C21",
@@ -120,7 +120,7 @@ claim("C23",
 
 claim("C24",
       "forbid/require reachability rules in the SSA dataflow (may-facts at dispatch and I/O sites), who-may-call/send scans, extent provenance, abstract interpretation (E5) of evaluateBloomFilters against its specification",
-      "Effectiveness of pruning: no file-job dispatch from the negative file-level edge or an empty prefilter result; block-filter I/O only with bloom conditions and sections to read; a block whose filters were read is scanned only on the survived edge; row data read only by the block scan fed only from the survivor loop; scan and filter reads use the block's own declared extents after validation; hasSections is a latch over the candidate blocks (R5); evaluateBloomFilters equals its specification on every small tree × membership × absent-filter mask, so whatever the present filters rule out is disqualified (R6). Request counts on real layouts are left to the existing tests.",
+      "Effectiveness of pruning: no file-job dispatch from the negative file-level edge or an empty prefilter result; block-filter I/O only with bloom conditions and sections to read; a block whose filters were read is scanned only on the survived edge; row data read only by the block scan fed only from the survivor loop; scan and filter reads use the block's own declared extents after validation; hasSections is a latch over the candidate blocks (R5); both pruning stages receive the one prune query AndBloomQueries(row query, regex guard) (R7); evaluateBloomFilters equals its specification on every small tree × membership × absent-filter mask, so whatever the present filters rule out is disqualified (R6). Request counts on real layouts are left to the existing tests.",
       TB)
 
 claim("C19",
